@@ -366,6 +366,18 @@ def sub_subst(case):
             ws[pos] = w2
             s = ' '.join(ws)
             exp = bip39.to_entropy(ws, lang)
+            # to_seed / from_passphrase find the language themselves: a sentence that is a valid sentence of ANOTHER
+            # bundled list (the Chinese lists share most words) is rightly accepted there
+            exp_any = exp
+            if exp is None:
+                for other in bip39.LANGS:
+                    try:
+                        e2 = bip39.to_entropy(ws, other)
+                    except Exception:
+                        e2 = None
+                    if e2 is not None:
+                        exp_any = e2
+                        break
             cls = 'out_of_list_word' if w2 not in wlset else 'checksum_mismatch' if exp is None else 'valid_other_entropy'
             key = '%s|%s|%d|%s' % (lang, case['ent'], pos, kind)
             sites = ['to_entropy']
@@ -384,7 +396,7 @@ def sub_subst(case):
                         k = HDKey.from_passphrase(s, 'pw')
                         got = (k.private_byte, k.chain)
                 except Exception as e:
-                    if exp is None:
+                    if exp is None and site == 'to_entropy' or exp_any is None:
                         rec.o('rejected_%s' % cls)
                         rec.nt.add(key + '|' + site)
                     else:
@@ -392,6 +404,14 @@ def sub_subst(case):
                                 {'lang': lang, 'sentence': s, 'exc': repr(e)[:200]})
                     continue
                 rec.nt.add(key + '|' + site)
+                if site != 'to_entropy' and exp is None and exp_any is not None:
+                    sd = bip39.seed(s, 'pw')
+                    I = hmac.new(b'Bitcoin seed', sd, hashlib.sha512).digest()
+                    if got == (sd if site == 'to_seed' else (I[:32], I[32:])):
+                        rec.o('valid_sentence_of_another_list_ok')
+                    else:
+                        rec.dev('%s|wrong_result_for_valid_sentence_of_another_list' % site, {'lang': lang, 'sentence': s})
+                    continue
                 if exp is None:
                     rec.dev('%s|invalid_sentence_accepted|%s|substitute=%s' % (site, cls, kind),
                             {'lang': lang, 'sentence': s, 'position': pos,
